@@ -219,7 +219,13 @@ static struct reb_treecell *reb_simulation_update_tree_cell(struct reb_simulatio
             r->particles[oldpos] = r->particles[r->N];
             r->particles[oldpos].c->pt = oldpos;
             if (!isnan(reinsertme.y)){ // Do not reinsert if flagged for removal
+                // Moving a particle to another cell does not change the set of radii. 
+                // Without this, re-adding the largest particle sets max_radius1 to max_radius0.
+                const double max_radius0 = r->max_radius0;
+                const double max_radius1 = r->max_radius1;
                 reb_simulation_add(r, reinsertme);
+                r->max_radius0 = max_radius0;
+                r->max_radius1 = max_radius1;
             }
         }
 		free(node);
